@@ -4,7 +4,7 @@
 use crate::exec::{DbCfg, Exec};
 use crate::gen::{Gen, Profile};
 use crate::kscfg::KsCfg;
-use crate::ops::{ks_name, program_from_text, program_to_text, Op};
+use crate::ops::{ks_name, program_from_text, program_to_text, Op, Val, WItem, WKind};
 use crate::rng::{mix, Rng};
 use crate::sweep::{Deviation, R};
 use crate::util::{emit, fresh_dir, rm_rf, Counts, Hasher, J};
@@ -414,6 +414,8 @@ pub fn run_case(plan: &CasePlan, seed: u64, idx: u64, fixed_ops: Option<Vec<Op>>
         let fixed = fixed_ops.is_some();
         let mut fixed_iter = fixed_ops.map(|v| v.into_iter());
         let ks_cfgs = plan.ks_cfgs.clone();
+        let mut sb_rng = Rng::new(mix(&[seed, idx, 0x57A1E]));
+        let mut sb_tag = 0u64;
         loop {
             let op = if let Some(it) = fixed_iter.as_mut() {
                 match it.next() {
@@ -424,6 +426,29 @@ pub fn run_case(plan: &CasePlan, seed: u64, idx: u64, fixed_ops: Option<Vec<Op>>
                 pre[i].clone()
             } else if i >= pre.len() + plan.steps {
                 break;
+            } else if plan.property == "C12" && !ex.model.ks.is_empty() && sb_rng.chance(1, 40) {
+                let live: Vec<u8> = ex.model.ks.keys().copied().collect();
+                Op::FailedDelete { ks: live[sb_rng.usize(live.len())] }
+            } else if plan.property == "C12" && !ex.stale.is_empty() && sb_rng.chance(1, 5) {
+                // C12 / C06: a batch that still holds the handle of a deleted incarnation of a keyspace
+                let ks = ex.stale[sb_rng.usize(ex.stale.len())].0;
+                let live: Vec<u8> = ex.model.ks.keys().copied().filter(|k| *k != ks).collect();
+                let mut items = Vec::new();
+                let mut put = |r: &mut Rng, k: u8| {
+                    sb_tag += 1;
+                    let key = vec![b's', b'b', b'a' + r.below(4) as u8];
+                    WItem { ks: k, key, kind: WKind::Put(Val { tag: 9_000_000 + sb_tag, len: 4 + r.below(24) as u32, kind: 0 }) }
+                };
+                if !live.is_empty() {
+                    let k = live[sb_rng.usize(live.len())];
+                    items.push(put(&mut sb_rng, k));
+                }
+                items.push(put(&mut sb_rng, ks));
+                if !live.is_empty() && sb_rng.chance(1, 2) {
+                    let k = live[sb_rng.usize(live.len())];
+                    items.push(put(&mut sb_rng, k));
+                }
+                Op::StaleBatch { ks, items }
             } else {
                 let mut cfg_for_new = |r: &mut Rng, ks: u8| -> u32 {
                     if r.chance(1, 2) {
